@@ -22,6 +22,15 @@ func (d *hxData) Ptr() int                  { return d.A + 1 }
 func (d hxData) Two(a, b int) int           { return a + b }
 func (d hxData) Show(s fmt.Stringer) string { return s.String() }
 
+type c12inner struct{ Hits int }
+
+// c12Wrap embeds a struct of unexported type: its exported fields are promoted (w.Hits),
+// the embedded struct itself is an unexported field.
+type c12Wrap struct {
+	c12inner
+	Pub int
+}
+
 type c12Stringer struct{}
 
 func (c12Stringer) String() string { return "str" }
@@ -79,6 +88,20 @@ var c12Failing = []string{
 	`{{ d.Show(1) }}`,                // ... of a method
 	`{{ 5 | describe }}`,             // ... piped
 	`{{ describeAll(stringer, 5) }}`, // ... in the variadic tail
+	`{{ "a" % 2 }}`,                  // remainder / quotient of a non-number
+	`{{ str % 2 }}`,
+	`{{ digits % 2 }}`, // ... of a string that happens to hold digits
+	`{{ m % 2 }}`,
+	`{{ true % 2 }}`,
+	`{{ nil % 2 }}`,
+	`{{ bl % 2 }}`,
+	`{{ "a" / 2 }}`,
+	`{{ digits / 2 }}`,
+	`{{ s % 2 }}`,
+	`{{ w.c12inner }}`, // an embedded struct of unexported type named directly
+	`{{ w.c12inner.Hits }}`,
+	`{{ x := w.c12inner }}`,
+	`{{ pw.c12inner.Hits }}`,
 }
 
 func c12Vars(n int64) VarMap {
@@ -100,6 +123,9 @@ func c12Vars(n int64) VarMap {
 	vars.Set("cx", complex(1, 0))
 	vars.Set("bl", true)
 	vars.Set("stringer", c12Stringer{})
+	vars.Set("digits", "7")
+	vars.Set("w", c12Wrap{c12inner{3}, 4})
+	vars.Set("pw", &c12Wrap{c12inner{3}, 4})
 	vars.Set("describe", func(s fmt.Stringer) string { return s.String() })
 	vars.Set("wrapErr", func(e error) string { return e.Error() })
 	vars.Set("describeAll", func(s ...fmt.Stringer) string { return "" })
